@@ -270,6 +270,15 @@ unsafe impl Sync for Shared {}
 
 impl Drop for Shared {
     fn drop(&mut self) {
+        // If the `Ring` was dropped before the last `SubmissionQueue` (or
+        // `AsyncFd`) nothing submitted the submissions queued after it was
+        // dropped, e.g. the closing of fds, do that now.
+        if self.unsubmitted_submissions() != 0 {
+            if let Err(err) = self.enter(0, 0, Some(Duration::ZERO)) {
+                log::warn!("error submitting last submissions: {err}");
+            }
+        }
+
         let ptr = self.submissions.cast();
         let len = (self.submissions_len as usize) * size_of::<sq::Submission>();
         // NOTE: posioned in Shared::new.
